@@ -132,7 +132,7 @@ fn run_tree_history(mut it: Box<dyn DynIter + '_>, s: &[u128], c: &IterCase, who
 
 /// provided adapter methods (`nth`, `skip`, `step_by`, `last`, `count`) on a single-ended iterator
 /// must behave as the default implementations do on the indexed sequence
-fn check_adapters<'a, X: PartialEq + Copy + std::fmt::Debug>(mk: &dyn Fn() -> Box<dyn Iterator<Item = X> + 'a>, e: &[X], seed: u64, who: &str, ctx: &mut Ctx) -> CheckResult {
+pub fn check_adapters<'a, X: PartialEq + Copy + std::fmt::Debug>(mk: &dyn Fn() -> Box<dyn Iterator<Item = X> + 'a>, e: &[X], seed: u64, who: &str, ctx: &mut Ctx) -> CheckResult {
     let n = e.len();
     let mut r = crate::util::Rng::new(seed);
     let mut ks = vec![0usize, 1, 2, n.saturating_sub(1), n, n + 1, n + 7, 2 * n + 3];
